@@ -20,8 +20,12 @@
 use cascette_client_storage::container::{AccessMode, Container, DynamicContainer, ResidencyContainer};
 use cascette_client_storage::index::IndexManager;
 use cascette_client_storage::lru::LruManager;
+use cascette_client_storage::storage::ArchiveManager;
 use cascette_client_storage::{Installation, StorageError};
-use cascette_crypto::EncodingKey;
+use cascette_crypto::{ContentKey, EncodingKey, FileDataId};
+use cascette_formats::blte::CompressionMode;
+use cascette_formats::encoding::{CKeyEntryData, EKeyEntryData, EncodingBuilder};
+use cascette_formats::root::{ContentFlags, LocaleFlags, RootBuilder, RootVersion};
 use parking_lot::RwLock;
 use serde_json::{Value, json};
 use std::cell::RefCell;
@@ -34,6 +38,7 @@ use vh::{Ctx, Rng, fnv64, genx, hex_short, mix64};
 
 const PROBE_ID: usize = usize::MAX;
 const HUGE_ID: usize = usize::MAX - 1;
+const TRUNC_ID: usize = usize::MAX - 2;
 
 thread_local! {
     static LAST_PANIC: RefCell<Option<(String, String)>> = const { RefCell::new(None) };
@@ -265,7 +270,7 @@ fn err_label(e: &StorageError) -> String {
 }
 
 fn err_is_content_independent(label: &str) -> bool {
-    label == "NotFound" || label == "TruncatedRead" || label.contains("beyond archive bounds")
+    label == "NotFound" || label == "TruncatedRead" || label == "AccessDenied" || label.contains("beyond archive bounds")
 }
 
 // ---------------------------------------------------------------------------
@@ -295,6 +300,7 @@ impl Hist<'_> {
         let hist = match self.idx {
             PROBE_ID => json!("probe"),
             HUGE_ID => json!("huge"),
+            TRUNC_ID => json!("truncated"),
             i => json!(i),
         };
         let rerun = if hist.is_string() { "c04 --replay <this file>".to_string() } else { format!("c04 --tier {} --seed {} --only-history {}", self.ctx.tier_name(), self.ctx.seed as i64, self.idx) };
@@ -344,8 +350,54 @@ struct DynBundle {
     lru: Option<Arc<RwLock<LruManager>>>,
 }
 
+/// Container configuration of one history ("all configurations"): every builder option, the legacy
+/// six-argument constructor, and the access mode of the current open.
+#[derive(Clone, Copy)]
+struct DynCfg {
+    legacy_ctor: bool,
+    shared_memory: bool,
+    segment_limit: u16,
+    max_segment_size: u64,
+    free_space_reclaim: bool,
+    path_hash: [u8; 16],
+}
+
+impl DynCfg {
+    const DEFAULT: Self = Self { legacy_ctor: false, shared_memory: false, segment_limit: 0x3FF, max_segment_size: 0, free_space_reclaim: false, path_hash: [0; 16] };
+    fn random(rng: &mut Rng, variant: usize) -> Self {
+        if rng.chance(1, 3) {
+            return Self::DEFAULT;
+        }
+        Self {
+            // the six-argument constructor cannot attach residency / LRU
+            legacy_ctor: variant == 0 && rng.bool(),
+            shared_memory: rng.bool(),
+            segment_limit: *rng.pick(&[1u16, 16, 0x3FF, 2000]),
+            max_segment_size: *rng.pick(&[0u64, 1 << 20, 1 << 30]),
+            free_space_reclaim: rng.bool(),
+            path_hash: if rng.bool() { rng.array::<16>() } else { [0; 16] },
+        }
+    }
+    fn label(&self) -> String {
+        format!("ctor={} shmem={} seglimit={} segsize={} reclaim={} path_hash={}", if self.legacy_ctor { "new" } else { "builder" }, self.shared_memory, self.segment_limit, self.max_segment_size, self.free_space_reclaim, self.path_hash != [0; 16])
+    }
+}
+
 fn open_dynamic(rt: &tokio::runtime::Runtime, root: &Path, variant: usize, lru_cap: u32) -> Result<DynBundle, String> {
-    let mut b = DynamicContainer::builder(root.join("store"));
+    open_dynamic_cfg(rt, root, variant, lru_cap, AccessMode::ReadWrite, &DynCfg::DEFAULT)
+}
+
+fn open_dynamic_cfg(rt: &tokio::runtime::Runtime, root: &Path, variant: usize, lru_cap: u32, mode: AccessMode, cfg: &DynCfg) -> Result<DynBundle, String> {
+    if cfg.legacy_ctor && variant == 0 {
+        let seg = if cfg.max_segment_size == 0 { 1 << 30 } else { cfg.max_segment_size };
+        let c = DynamicContainer::new(mode, root.join("store"), cfg.shared_memory, cfg.segment_limit, seg, cfg.free_space_reclaim).map_err(|e| format!("DynamicContainer::new: {e}"))?;
+        rt.block_on(c.open()).map_err(|e| format!("open: {e}"))?;
+        return Ok(DynBundle { c, _res: None, lru: None });
+    }
+    let mut b = DynamicContainer::builder(root.join("store")).access_mode(mode).shared_memory(cfg.shared_memory).segment_limit(cfg.segment_limit).free_space_reclaim(cfg.free_space_reclaim).path_hash(cfg.path_hash);
+    if cfg.max_segment_size != 0 {
+        b = b.max_segment_size(cfg.max_segment_size);
+    }
     let mut res = None;
     let mut lru = None;
     if variant & 1 != 0 {
@@ -432,6 +484,146 @@ fn dyn_read(rt: &tokio::runtime::Runtime, c: &DynamicContainer, key: &[u8; 16], 
     Ok(buf)
 }
 
+/// Read into a buffer that is NOT larger than the object (exact size, one byte short, half, empty). The call may only
+/// hand back leading bytes of the object: `n <= buf.len()` and `buf[..n] == payload[..n]`; with an exact-size buffer
+/// the whole object. What a too-small buffer yields beyond that (partial fill, error) is left open by the statement.
+fn dyn_short_read(h: &mut Hist<'_>, rt: &tokio::runtime::Runtime, c: &DynamicContainer, key: &[u8; 16], obj: &Obj, kind: &'static str) {
+    let len = obj.payload.len();
+    let blen = match kind {
+        "exact" => len,
+        "minus1" => len.saturating_sub(1),
+        "half" => len / 2,
+        _ => 0,
+    };
+    let phase = h.phase(obj);
+    let group = content_group(&obj.payload, obj.class);
+    let mut buf = vec![0xA5u8; blen];
+    h.stats.add(&format!("dynamic.short_buffer_read.{kind}"), 1);
+    match rt.block_on(c.read(key, 0, blen as u32, &mut buf)) {
+        Ok(n) => {
+            if n > blen {
+                h.violation(format!("C04|DynamicContainer::read|returned-length-exceeds-buffer|buffer={kind}|{phase}"), "read() reports more bytes than the buffer holds", json!({"ekey": hex::encode(key), "n": n, "buffer": blen, "len": len}));
+            } else if buf[..n] != obj.payload[..n] {
+                let first = buf[..n].iter().zip(&obj.payload).position(|(a, b)| a != b);
+                h.violation(format!("C04|DynamicContainer::read|returned-bytes-differ|buffer={kind}|{group}|{phase}"), "read() into a buffer not larger than the object returned bytes that are not the leading bytes of the object", json!({"ekey": hex::encode(key), "len": len, "buffer": blen, "n": n, "first_diff": first, "class": obj.class}));
+            } else if kind == "exact" && n != len {
+                h.violation(format!("C04|DynamicContainer::read|returned-length-differs|buffer=exact|{group}|{phase}"), "read() into a buffer of exactly the object's size returned fewer bytes", json!({"ekey": hex::encode(key), "len": len, "n": n}));
+            } else if n == blen {
+                h.stats.add("dynamic.short_buffer_read.ok_prefix", 1);
+            } else {
+                h.stats.add("dynamic.short_buffer_read.partial_fill", 1);
+            }
+        }
+        Err(e) => {
+            let label = err_label(&e);
+            if kind == "exact" {
+                h.violation(format!("C04|DynamicContainer::read|err={label}|buffer=exact|{phase}"), "a read of a successfully written object into a buffer of exactly its size failed", json!({"ekey": hex::encode(key), "len": len, "error": e.to_string()}));
+            } else {
+                h.stats.add(&format!("dynamic.short_buffer_read.err.{label}"), 1);
+            }
+        }
+    }
+}
+
+fn mode_name(m: AccessMode) -> &'static str {
+    match m {
+        AccessMode::None => "None",
+        AccessMode::ReadOnly => "ReadOnly",
+        AccessMode::ReadWrite => "ReadWrite",
+        AccessMode::Exclusive => "Exclusive",
+    }
+}
+
+/// One phase in which the store is opened with another access mode (ReadOnly / None / Exclusive). Objects written
+/// earlier stay what they are: wherever the mode admits reads they come back byte-for-byte; a refused mutation
+/// (`Err`) must leave every object in place; a mutation that is admitted is judged like any other.
+#[allow(clippy::too_many_arguments)]
+fn dyn_access_phase(h: &mut Hist<'_>, rt: &tokio::runtime::Runtime, root: &Path, variant: usize, lru_cap: u32, cfg: &DynCfg, mode: AccessMode, m: &mut Model, known9: &mut BTreeSet<[u8; 9]>, rng: &mut Rng) -> Result<(), String> {
+    let mn = mode_name(mode);
+    h.log(format!("reopen access_mode={mn}"));
+    h.stats.add(&format!("dynamic.ops.reopen_access_mode.{mn}"), 1);
+    let bundle = open_dynamic_cfg(rt, root, variant, lru_cap, mode, cfg)?;
+    h.epoch += 1;
+    if bundle.c.access_mode() != mode || bundle.c.is_read_only() != (mode == AccessMode::ReadOnly) {
+        h.stats.add("dynamic.accessor_disagrees_with_configuration", 1);
+    }
+    if mode.can_read() {
+        dyn_verify_all(h, rt, &bundle.c, m, rng, mn);
+    } else {
+        // no read access: a refusal is legitimate, returned data must still be the object
+        let keys: Vec<[u8; 16]> = m.live.keys().copied().collect();
+        for k in keys {
+            let o = &m.live[&k];
+            match dyn_read(rt, &bundle.c, &k, o.payload.len(), 16) {
+                Ok(got) => {
+                    h.stats.add("dynamic.mode_none.read_ok", 1);
+                    check_read_result(h, "DynamicContainer::read|mode=None", &k, o, Ok(got), 16);
+                }
+                Err(e) => h.stats.add(&format!("dynamic.mode_none.read.err.{}", err_label(&e)), 1),
+            }
+        }
+    }
+    // a write attempt
+    let plen = rng.urange(0, 600);
+    let payload = rng.bytes(plen);
+    let passed: [u8; 16] = rng.array::<16>();
+    h.log(format!("write(mode={mn}) len={}", payload.len()));
+    match rt.block_on(bundle.c.write(&passed, &payload)) {
+        Ok(()) => {
+            h.stats.add(&format!("dynamic.mode_{mn}.write.ok"), 1);
+            let ekey = derive_ekey(&payload);
+            if matches!(rt.block_on(bundle.c.query(&ekey)), Ok(true)) {
+                known9.insert(k9(&ekey));
+                m.removed.remove(&ekey);
+                m.order.retain(|k| k != &ekey);
+                m.order.push(ekey);
+                m.live.insert(ekey, Obj { payload, class: "random", epoch: h.epoch, write_no: m.writes });
+                m.writes += 1;
+                if mode.can_read() {
+                    let o = &m.live[&ekey];
+                    let r = dyn_read(rt, &bundle.c, &ekey, o.payload.len(), 64);
+                    check_read_result(h, "DynamicContainer::read", &ekey, o, r, 64);
+                }
+            } else {
+                h.violation(format!("C04|DynamicContainer::write|ok-but-object-not-indexed|mode={mn}"), "write() returned Ok but the object cannot be found under its encoding key", json!({"derived_ekey": hex::encode(ekey), "len": payload.len(), "mode": mn}));
+            }
+        }
+        Err(e) => h.stats.add(&format!("dynamic.mode_{mn}.write.err.{}", err_label(&e)), 1),
+    }
+    // a remove attempt on a live key: the model follows what the store shows; a refusal must not destroy the object
+    if let Some(k) = m.pick_live(rng, false) {
+        h.log(format!("remove(mode={mn}) {}", hex::encode(&k[..4])));
+        let res = rt.block_on(bundle.c.remove(&k));
+        let still = matches!(rt.block_on(bundle.c.query(&k)), Ok(true));
+        match (&res, still) {
+            (Err(e), false) => {
+                let label = err_label(e);
+                h.violation(format!("C04|DynamicContainer::remove|err={label}-but-object-gone|mode={mn}"), "remove() refused the call but the object is no longer found", json!({"ekey": hex::encode(k), "mode": mn}));
+            }
+            (Err(e), true) => h.stats.add(&format!("dynamic.mode_{mn}.remove.err.{}", err_label(e)), 1),
+            (Ok(()), true) => h.stats.add(&format!("dynamic.mode_{mn}.remove.ok_object_kept"), 1),
+            (Ok(()), false) => {
+                h.stats.add(&format!("dynamic.mode_{mn}.remove.ok_object_removed"), 1);
+                m.live.remove(&k);
+                m.order.retain(|x| x != &k);
+                m.removed.insert(k);
+            }
+        }
+    }
+    // reserve / remove_span(empty span) in this mode: whatever they answer, the objects stay
+    if let Some(k) = m.pick_live(rng, false) {
+        let r = rt.block_on(bundle.c.reserve(&k));
+        h.stats.add(&format!("dynamic.mode_{mn}.reserve.{}", if r.is_ok() { "ok".to_string() } else { r.as_ref().err().map(err_label).unwrap_or_default() }), 1);
+        let r = bundle.c.remove_span(&k, 0, 0);
+        h.stats.add(&format!("dynamic.mode_{mn}.remove_span.{}", if r.is_ok() { "ok".to_string() } else { r.as_ref().err().map(err_label).unwrap_or_default() }), 1);
+    }
+    if mode.can_read() {
+        dyn_verify_all(h, rt, &bundle.c, m, rng, mn);
+    }
+    drop(bundle);
+    Ok(())
+}
+
 fn dyn_verify_all(h: &mut Hist<'_>, rt: &tokio::runtime::Runtime, c: &DynamicContainer, m: &Model, rng: &mut Rng, why: &str) {
     h.log(format!("verify_all({why})"));
     for (k, o) in &m.live {
@@ -480,9 +672,16 @@ fn run_dynamic(ctx: &Ctx, idx: usize, variant: usize, rng: &mut Rng) -> Result<(
     let store = root.join("store");
     let lru_cap = *rng.pick(&[2u32, 4, 1024]);
     let mut h = Hist { ctx, idx, target: "dynamic", variant: DYN_VARIANTS[variant], trace: Vec::new(), stats: Stats::default(), hash: mix64(0xc04, variant as u64), epoch: 0, reads_of_non_latest: 0, fs_kind };
-    let mut bundle = open_dynamic(&rt, &root, variant, lru_cap)?;
+    let cfg = DynCfg::random(rng, variant);
+    let rw = |rt: &tokio::runtime::Runtime| open_dynamic_cfg(rt, &root, variant, lru_cap, AccessMode::ReadWrite, &cfg);
+    let mut bundle = rw(&rt)?;
     let mut m = Model::default();
     let mut known9: BTreeSet<[u8; 9]> = BTreeSet::new();
+    h.stats.add(if cfg.legacy_ctor { "histories.dynamic.ctor.new" } else { "histories.dynamic.ctor.builder" }, 1);
+    if cfg.label() != DynCfg::DEFAULT.label() {
+        h.stats.add("histories.dynamic.non_default_configuration", 1);
+    }
+    h.log(format!("cfg {}", cfg.label()));
 
     let n_ops = rng.urange(5, 60);
     let order = *rng.pick(SIZE_ORDERS);
@@ -570,6 +769,12 @@ fn run_dynamic(ctx: &Ctx, idx: usize, variant: usize, rng: &mut Rng) -> Result<(
             if o.epoch != h.epoch {
                 h.stats.add("dynamic.reads_after_reopen", 1);
             }
+            if rng.chance(1, 4) {
+                let kind = *rng.pick(&["exact", "exact", "minus1", "half", "zero"]);
+                h.log(format!("  (buffer={kind})"));
+                dyn_short_read(&mut h, &rt, &bundle.c, &k, o, kind);
+                continue;
+            }
             let res = dyn_read(&rt, &bundle.c, &k, o.payload.len(), extra);
             let o = m.live.get(&k).ok_or("model lost key")?;
             check_read_result(&mut h, "DynamicContainer::read", &k, o, res, extra);
@@ -631,9 +836,62 @@ fn run_dynamic(ctx: &Ctx, idx: usize, variant: usize, rng: &mut Rng) -> Result<(
             let lru_len = bundle.lru.as_ref().map_or(0, |l| l.read().len());
             h.stats.max("lru.max_len_seen", lru_len as u64);
             drop(bundle);
-            bundle = open_dynamic(&rt, &root, variant, lru_cap)?;
+            if rng.chance(2, 5) {
+                // ---- a phase under another access mode, then back to read-write
+                let mode = *rng.pick(&[AccessMode::ReadOnly, AccessMode::ReadOnly, AccessMode::None, AccessMode::Exclusive]);
+                dyn_access_phase(&mut h, &rt, &root, variant, lru_cap, &cfg, mode, &mut m, &mut known9, rng)?;
+                reopen_count += 1;
+            }
+            bundle = rw(&rt)?;
             h.epoch += 1;
             dyn_verify_all(&mut h, &rt, &bundle.c, &m, rng, "after-reopen");
+        } else if r < 97 {
+            // ---- reserve: prepares the container for a key; nothing that is stored may change
+            let live = rng.bool();
+            let k = if live { m.pick_live(rng, false).unwrap_or([0; 16]) } else { rng.array::<16>() };
+            h.log(format!("reserve {} live={live}", hex::encode(&k[..4])));
+            h.stats.add("dynamic.ops.reserve", 1);
+            match rt.block_on(bundle.c.reserve(&k)) {
+                Ok(()) => h.stats.add("dynamic.reserve.ok", 1),
+                Err(e) => h.stats.add(&format!("dynamic.reserve.err.{}", err_label(&e)), 1),
+            }
+            if let Some(o) = m.live.get(&k) {
+                let res = dyn_read(&rt, &bundle.c, &k, o.payload.len(), 16);
+                h.stats.add("dynamic.ops.read", 1);
+                check_read_result(&mut h, "DynamicContainer::read", &k, o, res, 16);
+            } else if !known9.contains(&k9(&k)) {
+                match rt.block_on(bundle.c.query(&k)) {
+                    Ok(b) => h.stats.add(&format!("dynamic.query_after_reserve_of_unwritten_key.{b}"), 1),
+                    Err(_) => h.stats.add("dynamic.query_after_reserve_of_unwritten_key.err", 1),
+                }
+            }
+        } else if r < 98 {
+            // ---- remove_span: an empty span of a live object (the object must stay what it is), or any span of a
+            // key that is not stored (documented to succeed silently); the other objects are checked at the next verify
+            h.stats.add("dynamic.ops.remove_span", 1);
+            let live_key = if rng.bool() { m.pick_live(rng, false) } else { None };
+            if let Some(k) = live_key {
+                let off = rng.below(m.live[&k].payload.len() as u64 + 1);
+                h.log(format!("remove_span live {} off={off} len=0", hex::encode(&k[..4])));
+                match bundle.c.remove_span(&k, off, 0) {
+                    Ok(()) => h.stats.add("dynamic.remove_span.empty_span_of_live.ok", 1),
+                    Err(e) => h.stats.add(&format!("dynamic.remove_span.empty_span_of_live.err.{}", err_label(&e)), 1),
+                }
+                let o = &m.live[&k];
+                let res = dyn_read(&rt, &bundle.c, &k, o.payload.len(), 7);
+                h.stats.add("dynamic.ops.read", 1);
+                check_read_result(&mut h, "DynamicContainer::read", &k, o, res, 7);
+            } else {
+                let k = m.removed.iter().find(|k| !m.live.contains_key(*k)).copied().unwrap_or_else(|| rng.array::<16>());
+                if !m.live.contains_key(&k) && (m.removed.contains(&k) || !known9.contains(&k9(&k))) {
+                    h.log(format!("remove_span absent {}", hex::encode(&k[..4])));
+                    match bundle.c.remove_span(&k, rng.below(1 << 20), rng.below(1 << 20)) {
+                        Ok(()) => h.stats.add("dynamic.remove_span.absent_key.ok", 1),
+                        Err(e) => h.stats.add(&format!("dynamic.remove_span.absent_key.err.{}", err_label(&e)), 1),
+                    }
+                    dyn_check_absent(&mut h, &rt, &bundle.c, &k, if m.removed.contains(&k) { "removed" } else { "never-written" });
+                }
+            }
         } else {
             // ---- removed key probe
             let ks: Vec<[u8; 16]> = m.removed.iter().copied().filter(|k| !m.live.contains_key(k)).collect();
@@ -646,10 +904,13 @@ fn run_dynamic(ctx: &Ctx, idx: usize, variant: usize, rng: &mut Rng) -> Result<(
     // final: everything written and not removed must read back, in this instance and after a reopen
     dyn_verify_all(&mut h, &rt, &bundle.c, &m, rng, "final-same-instance");
     drop(bundle);
-    let bundle = open_dynamic(&rt, &root, variant, lru_cap)?;
+    // the final reopen: read-write, or read-only (a store opened only for reading serves the same bytes)
+    let final_mode = if rng.chance(1, 3) { AccessMode::ReadOnly } else { AccessMode::ReadWrite };
+    let bundle = open_dynamic_cfg(&rt, &root, variant, lru_cap, final_mode, &cfg)?;
     h.epoch += 1;
     reopen_count += 1;
     h.stats.add("dynamic.ops.reopen", 1);
+    h.stats.add(&format!("dynamic.final_reopen.mode={}", mode_name(final_mode)), 1);
     dyn_verify_all(&mut h, &rt, &bundle.c, &m, rng, "final-after-reopen");
     let entry_count = bundle.c.entry_count();
     if entry_count != m.live.len() {
@@ -722,19 +983,297 @@ fn inst_verify_all(h: &mut Hist<'_>, rt: &tokio::runtime::Runtime, inst: &Instal
     }
 }
 
+// ---------------------------------------------------------------------------
+// Installation: the other read entry points (by key bytes / content key / path / FileDataID, batch variants,
+// by archive location) — whatever they hand back for a written object must be exactly that object
+// ---------------------------------------------------------------------------
+
+/// A name (FileDataID + path) that a loaded root manifest maps to `key`, which is the content key or the
+/// encoding-key bytes of the object `obj` (its encoding key in the model).
+struct Name {
+    fdid: u32,
+    path: String,
+    key_kind: &'static str,
+    /// the 16 bytes the manifest maps the name to
+    key: [u8; 16],
+}
+
+/// Content keys (MD5 of the payload) of the written objects, by encoding key.
+type CKeys = BTreeMap<[u8; 16], [u8; 16]>;
+
+/// The written objects a 16-byte key can stand for: the object whose content key it is, and the object whose
+/// encoding key it is (the local index is keyed by the first nine bytes of encoding keys, and the content-key entry
+/// points look the key up there). These can be two different objects — the content key of `BLTE(x)` stored as a
+/// payload IS the encoding key of `x` stored plainly — and the statement does not say which one a content-key read
+/// has to prefer, so either is accepted; anything else is "other bytes".
+fn candidates<'m>(m: &'m Model, ckeys: &CKeys, key: &[u8; 16]) -> Vec<&'m Obj> {
+    m.live.iter().filter(|(ek, _)| k9(ek) == k9(key) || ckeys.get(*ek) == Some(key)).map(|(_, o)| o).collect()
+}
+
+/// Judge the result of an alternative read entry point. `exp` = the written object the key/name stands for.
+/// Ok ⇒ exactly that object's bytes (and there must be such an object); Err ⇒ recorded (the statement promises
+/// reads by encoding key only; these entry points are documented as "may not find files").
+fn judge_alt_read(h: &mut Hist<'_>, api: &str, key_kind: &str, key: &[u8], cands: &[&Obj], res: &Result<Vec<u8>, StorageError>) -> bool {
+    match res {
+        Ok(got) if cands.is_empty() => {
+            h.violation(format!("C04|Installation::{api}|ok-for-never-written-key|key={key_kind}"), "a read returned data for a key / name that stands for no written object", json!({"key": hex::encode(key), "returned_len": got.len(), "returned": hex_short(got, 48)}));
+            true
+        }
+        Ok(got) => {
+            if let Some(i) = cands.iter().position(|o| o.payload == *got) {
+                h.stats.add(&format!("installation.{api}.ok.key={key_kind}"), 1);
+                h.stats.add("installation.alt_read.ok_exact_bytes", 1);
+                if cands.len() > 1 {
+                    h.stats.add(&format!("installation.alt_read.key_stands_for_two_objects.returned_{}", if i == 0 { "first" } else { "other" }), 1);
+                }
+            } else {
+                let o = cands[0];
+                let phase = h.phase(o);
+                let group = content_group(&o.payload, o.class);
+                let rel = if got.len() != o.payload.len() { "returned-length-differs" } else { "returned-bytes-differ" };
+                h.violation(
+                    format!("C04|Installation::{api}|{rel}|key={key_kind}|{group}|{phase}"),
+                    "an alternative read entry point returned other bytes than the written object",
+                    json!({"key": hex::encode(key), "key_kind": key_kind, "class": o.class, "written_len": o.payload.len(), "returned_len": got.len(), "written": hex_short(&o.payload, 48), "returned": hex_short(got, 48), "candidate_objects": cands.len()}),
+                );
+            }
+            true
+        }
+        Err(e) => {
+            h.stats.add(&format!("installation.{api}.err.{}.key={key_kind}", err_label(e)), 1);
+            false
+        }
+    }
+}
+
+/// (key bytes, kind) for a probe through the content-key entry points.
+fn pick_alt_key(m: &Model, ckeys: &CKeys, known9: &BTreeSet<[u8; 9]>, rng: &mut Rng) -> ([u8; 16], &'static str) {
+    match (rng.below(10), m.pick_live(rng, false)) {
+        (0..=3, Some(k)) => (k, "ekey-bytes"),
+        (4..=6, Some(k)) if ckeys.contains_key(&k) => (ckeys[&k], "content-key"),
+        _ => loop {
+            let k = rng.array::<16>();
+            if !known9.contains(&k9(&k)) {
+                return (k, "never-written");
+            }
+        },
+    }
+}
+
+fn inst_alt_key_reads(h: &mut Hist<'_>, rt: &tokio::runtime::Runtime, inst: &Arc<Installation>, m: &Model, ckeys: &CKeys, known9: &BTreeSet<[u8; 9]>, rng: &mut Rng) {
+    h.stats.add("installation.ops.alt_key_reads", 1);
+    // single reads: each entry point twice (the second call is served from the installation's cache after a success)
+    let (k, kind) = pick_alt_key(m, ckeys, known9, rng);
+    let cands = candidates(m, ckeys, &k);
+    h.log(format!("alt reads key={} kind={kind}", hex::encode(&k[..4])));
+    let ck = ContentKey::from_bytes(k);
+    let mut prev_ok = false;
+    for round in 0..2 {
+        let r = rt.block_on(inst.read_file_by_content_key(&ck));
+        let ok = judge_alt_read(h, "read_file_by_content_key", kind, &k, &cands, &r);
+        if round == 1 && prev_ok && !ok {
+            h.violation(format!("C04|Installation::read_file_by_content_key|repeat-read-fails-after-success|key={kind}"), "the same read succeeded and then failed", json!({"key": hex::encode(k)}));
+        }
+        prev_ok = ok;
+    }
+    let r = rt.block_on(inst.read_file(&k));
+    judge_alt_read(h, "read_file", kind, &k, &cands, &r);
+    let has = rt.block_on(inst.has_content_key(&ck));
+    h.stats.add(&format!("installation.has_content_key.{has}.key={kind}"), 1);
+    if has && cands.is_empty() {
+        h.violation("C04|Installation::has_content_key|true-for-never-written-key".to_string(), "has_content_key() is true for a key that stands for no written object", json!({"key": hex::encode(k)}));
+    }
+    // malformed key lengths are not keys of anything
+    if rng.chance(1, 4) {
+        let n = *rng.pick(&[0usize, 9, 15, 17, 32]);
+        let bad = rng.bytes(n);
+        let r = rt.block_on(inst.read_file(&bad));
+        h.stats.add(&format!("installation.read_file.malformed_key_len.{}", if r.is_ok() { "ok" } else { "err" }), 1);
+        if let Ok(got) = r {
+            h.violation("C04|Installation::read_file|ok-for-malformed-key".to_string(), "read_file() returned data for a key that is not 16 bytes long", json!({"key_len": n, "returned_len": got.len()}));
+        }
+    }
+    // batch variant: element-wise the single reads
+    let n = rng.urange(1, 6);
+    let keys: Vec<[u8; 16]> = (0..n).map(|_| pick_alt_key(m, ckeys, known9, rng).0).collect();
+    let cks: Vec<ContentKey> = keys.iter().map(|k| ContentKey::from_bytes(*k)).collect();
+    let singles: Vec<bool> = cks.iter().map(|k| rt.block_on(inst.read_file_by_content_key(k)).is_ok()).collect();
+    let batch = rt.block_on(Arc::clone(inst).read_files_by_content_keys(&cks));
+    judge_batch(h, "read_files_by_content_keys", m, ckeys, &keys, &singles, batch);
+}
+
+/// A batch read is the element-wise single read: Ok ⇒ one result per request, each exactly the object the request
+/// stands for; Err ⇒ at least one of the single reads fails as well.
+fn judge_batch(h: &mut Hist<'_>, api: &str, m: &Model, ckeys: &CKeys, keys: &[[u8; 16]], singles: &[bool], batch: Result<Vec<Vec<u8>>, StorageError>) {
+    h.stats.add(&format!("installation.ops.{api}"), 1);
+    match batch {
+        Ok(v) => {
+            h.stats.add(&format!("installation.{api}.ok"), 1);
+            if v.len() != keys.len() {
+                h.violation(format!("C04|Installation::{api}|result-count-differs-from-request-count"), "a batch read returned another number of results than requested", json!({"requested": keys.len(), "returned": v.len()}));
+                return;
+            }
+            for (i, got) in v.into_iter().enumerate() {
+                let cands = candidates(m, ckeys, &keys[i]);
+                judge_alt_read(h, api, "batch-element", &keys[i], &cands, &Ok(got));
+            }
+            if singles.iter().any(|ok| !ok) {
+                h.violation(format!("C04|Installation::{api}|ok-although-a-single-read-fails"), "a batch read succeeded although the single read of one element fails", json!({"singles_ok": singles}));
+            }
+        }
+        Err(e) => {
+            h.stats.add(&format!("installation.{api}.err.{}", err_label(&e)), 1);
+            if singles.iter().all(|ok| *ok) {
+                h.violation(format!("C04|Installation::{api}|err-although-every-single-read-succeeds"), "a batch read failed although every element can be read on its own", json!({"error": e.to_string(), "elements": singles.len()}));
+            }
+        }
+    }
+}
+
+/// Build and load a root manifest + encoding table naming some of the live objects, twice each: once by their real
+/// content key (the documented chain FDID/path -> CKey -> EKey -> index) and once by their encoding-key bytes
+/// (what the local index is keyed by, i.e. what `read_file_by_content_key` actually looks up).
+fn inst_load_manifests(h: &mut Hist<'_>, inst: &Installation, m: &Model, ckeys: &CKeys, names: &mut Vec<Name>, name_seq: &mut u32, rng: &mut Rng) {
+    h.stats.add("installation.ops.load_manifests", 1);
+    let mut picked: Vec<[u8; 16]> = Vec::new();
+    for _ in 0..rng.urange(1, 8) {
+        if let Some(k) = m.pick_live(rng, false) {
+            if !picked.contains(&k) {
+                picked.push(k);
+            }
+        }
+    }
+    if picked.is_empty() {
+        return;
+    }
+    let mut rb = RootBuilder::new(RootVersion::V2);
+    let mut eb = EncodingBuilder::new();
+    let mut fresh: Vec<Name> = Vec::new();
+    let mut seen_ck: BTreeSet<[u8; 16]> = BTreeSet::new();
+    for k in &picked {
+        let o = &m.live[k];
+        let ckey = ckeys.get(k).copied().unwrap_or_else(|| md5::compute(&o.payload).0);
+        for (kind, key) in [("content-key", ckey), ("ekey-bytes", *k)] {
+            *name_seq += 1;
+            let fdid = 1000 + *name_seq * 3;
+            let path = format!("c04/{kind}/obj_{}.bin", *name_seq);
+            rb.add_file(FileDataId::new(fdid), ContentKey::from_bytes(key), Some(&path), LocaleFlags::new(LocaleFlags::ENUS), ContentFlags::new(ContentFlags::NONE));
+            if seen_ck.insert(key) {
+                eb.add_ckey_entry(CKeyEntryData { content_key: ContentKey::from_bytes(key), file_size: o.payload.len() as u64, encoding_keys: vec![EncodingKey::from_bytes(*k)] });
+            }
+            fresh.push(Name { fdid, path, key_kind: kind, key });
+        }
+        eb.add_ekey_entry(EKeyEntryData { encoding_key: EncodingKey::from_bytes(*k), espec: "n".into(), file_size: o.payload.len() as u64 + 9 });
+    }
+    h.log(format!("load_root_file + load_encoding_file ({} names)", fresh.len()));
+    match rb.build() {
+        Ok(bytes) => match inst.load_root_file(&bytes) {
+            Ok(()) => {
+                h.stats.add("installation.load_root_file.ok", 1);
+                names.extend(fresh);
+            }
+            Err(_) => h.stats.add("installation.load_root_file.err", 1),
+        },
+        Err(_) => h.stats.add("installation.root_builder_refused", 1),
+    }
+    match eb.build().and_then(|f| f.build()) {
+        Ok(bytes) => match inst.load_encoding_file(&bytes) {
+            Ok(()) => h.stats.add("installation.load_encoding_file.ok", 1),
+            Err(_) => h.stats.add("installation.load_encoding_file.err", 1),
+        },
+        Err(_) => h.stats.add("installation.encoding_builder_refused", 1),
+    }
+}
+
+fn inst_name_reads(h: &mut Hist<'_>, rt: &tokio::runtime::Runtime, inst: &Arc<Installation>, m: &Model, ckeys: &CKeys, names: &[Name], rng: &mut Rng) {
+    h.stats.add("installation.ops.name_reads", 1);
+    // names that no manifest maps stand for nothing
+    let unmapped_fdid = 8 + 3 * rng.below(1000) as u32; // mapped ids are 1000 + 3k, i.e. 1 (mod 3); these are 2 (mod 3)
+    let r = rt.block_on(inst.read_file_by_fdid(unmapped_fdid));
+    judge_alt_read(h, "read_file_by_fdid", "unmapped-name", &[], &[], &r);
+    let r = rt.block_on(inst.read_file_by_path(&format!("c04/never/mapped_{}.bin", rng.below(1000))));
+    judge_alt_read(h, "read_file_by_path", "unmapped-name", &[], &[], &r);
+    if names.is_empty() {
+        return;
+    }
+    let nm = &names[rng.usize_below(names.len())];
+    let cands = candidates(m, ckeys, &nm.key);
+    h.log(format!("name reads fdid={} kind={}", nm.fdid, nm.key_kind));
+    for _ in 0..2 {
+        let r = rt.block_on(inst.read_file_by_fdid(nm.fdid));
+        judge_alt_read(h, "read_file_by_fdid", nm.key_kind, &nm.key, &cands, &r);
+        let r = rt.block_on(inst.read_file_by_path(&nm.path));
+        judge_alt_read(h, "read_file_by_path", nm.key_kind, &nm.key, &cands, &r);
+    }
+    match inst.get_file_info(&nm.path) {
+        Ok(Some(_)) => h.stats.add("installation.get_file_info.some", 1),
+        Ok(None) => h.stats.add("installation.get_file_info.none", 1),
+        Err(_) => h.stats.add("installation.get_file_info.err", 1),
+    }
+    // batch variants
+    let n = rng.urange(1, 5);
+    let sel: Vec<&Name> = (0..n).map(|_| &names[rng.usize_below(names.len())]).collect();
+    let keys: Vec<[u8; 16]> = sel.iter().map(|n| n.key).collect();
+    let fdids: Vec<u32> = sel.iter().map(|n| n.fdid).collect();
+    let singles: Vec<bool> = fdids.iter().map(|f| rt.block_on(inst.read_file_by_fdid(*f)).is_ok()).collect();
+    let batch = rt.block_on(Arc::clone(inst).read_files_by_fdids(&fdids));
+    judge_batch(h, "read_files_by_fdids", m, ckeys, &keys, &singles, batch);
+    let paths: Vec<String> = sel.iter().map(|n| n.path.clone()).collect();
+    let singles: Vec<bool> = paths.iter().map(|p| rt.block_on(inst.read_file_by_path(p)).is_ok()).collect();
+    let batch = rt.block_on(Arc::clone(inst).read_files_by_paths(&paths));
+    judge_batch(h, "read_files_by_paths", m, ckeys, &keys, &singles, batch);
+}
+
+/// Read by archive location: every written object is enumerated by `get_all_index_entries` with a location, and
+/// `read_from_archive(location)` is the object. `verify()` must not report anything invalid or missing.
+fn inst_location_reads(h: &mut Hist<'_>, rt: &tokio::runtime::Runtime, inst: &Installation, m: &Model, rng: &mut Rng) {
+    h.stats.add("installation.ops.location_reads", 1);
+    let entries = rt.block_on(inst.get_all_index_entries());
+    h.log(format!("get_all_index_entries -> {} + read_from_archive", entries.len()));
+    let keys: Vec<[u8; 16]> = m.live.keys().copied().collect();
+    for k in keys.iter().take(12) {
+        let o = &m.live[k];
+        let phase = h.phase(o);
+        let Some(e) = entries.iter().find(|e| e.key == k9(k)) else {
+            h.violation(format!("C04|Installation::get_all_index_entries|written-object-not-enumerated|{phase}"), "a written object is not among the enumerated index entries", json!({"ekey": hex::encode(k), "entries": entries.len()}));
+            continue;
+        };
+        let res = rt.block_on(inst.read_from_archive(e.archive_id(), e.archive_offset(), e.size));
+        h.stats.add("installation.read_from_archive", 1);
+        check_read_result(h, "Installation::read_from_archive", k, o, res, 0);
+    }
+    if rng.chance(1, 3) {
+        match rt.block_on(inst.verify()) {
+            Ok(v) => {
+                h.stats.add("installation.verify.ok", 1);
+                if v.invalid != 0 || v.missing != 0 {
+                    h.violation("C04|Installation::verify|reports-invalid-or-missing-on-intact-store".to_string(), "verify() reports invalid or missing objects although every written object reads back", json!({"total": v.total, "valid": v.valid, "invalid": v.invalid, "missing": v.missing}));
+                }
+            }
+            Err(e) => h.stats.add(&format!("installation.verify.err.{}", err_label(&e)), 1),
+        }
+        let st = rt.block_on(inst.stats());
+        h.stats.max("installation.stats.max_archive_size", st.archive_size);
+    }
+}
+
 fn run_installation(ctx: &Ctx, idx: usize, rng: &mut Rng) -> Result<(), String> {
     let rt = tokio::runtime::Builder::new_current_thread().enable_all().build().map_err(|e| e.to_string())?;
     let (td, fs_kind) = mk_tempdir(idx).map_err(|e| format!("tempdir: {e}"))?;
     let root = td.path().to_path_buf();
     let mut h = Hist { ctx, idx, target: "installation", variant: "installation", trace: Vec::new(), stats: Stats::default(), hash: 0x1c04, epoch: 0, reads_of_non_latest: 0, fs_kind };
-    let open = |rt: &tokio::runtime::Runtime| -> Result<Installation, String> {
+    let open = |rt: &tokio::runtime::Runtime| -> Result<Arc<Installation>, String> {
         let inst = Installation::open(root.join("inst")).map_err(|e| format!("Installation::open: {e}"))?;
         rt.block_on(inst.initialize()).map_err(|e| format!("Installation::initialize: {e}"))?;
-        Ok(inst)
+        Ok(Arc::new(inst))
     };
     let mut inst = open(&rt)?;
     let mut m = Model::default();
     let mut known9: BTreeSet<[u8; 9]> = BTreeSet::new();
+    // names mapped by the manifests loaded into the current instance (a new instance starts with none)
+    let mut names: Vec<Name> = Vec::new();
+    let mut name_seq = 0u32;
+    let mut ckeys: CKeys = BTreeMap::new();
     let n_ops = rng.urange(5, 60);
     let order = *rng.pick(SIZE_ORDERS);
     let max = match rng.below(10) {
@@ -789,6 +1328,7 @@ fn run_installation(ctx: &Ctx, idx: usize, rng: &mut Rng) -> Result<(), String> 
                         }
                     }
                     known9.insert(k9(&ekey));
+                    ckeys.insert(ekey, md5::compute(&payload).0);
                     m.order.retain(|k| k != &ekey);
                     m.order.push(ekey);
                     m.live.insert(ekey, Obj { payload, class, epoch: h.epoch, write_no: m.writes });
@@ -796,7 +1336,7 @@ fn run_installation(ctx: &Ctx, idx: usize, rng: &mut Rng) -> Result<(), String> 
                 }
                 Err(e) => h.stats.add(&format!("installation.write_file.err.{}", err_label(&e)), 1),
             }
-        } else if r < 78 {
+        } else if r < 66 {
             let Some(k) = m.pick_live(rng, true) else { continue };
             let non_latest = m.order.last() != Some(&k);
             let o = &m.live[&k];
@@ -811,7 +1351,7 @@ fn run_installation(ctx: &Ctx, idx: usize, rng: &mut Rng) -> Result<(), String> 
             }
             let res = rt.block_on(inst.read_file_by_encoding_key(&EncodingKey::from_bytes(k)));
             check_read_result(&mut h, "Installation::read_file_by_encoding_key", &k, o, res, 0);
-        } else if r < 90 {
+        } else if r < 74 {
             h.stats.add("installation.ops.has_encoding_key", 1);
             if rng.bool() && !m.live.is_empty() {
                 let k = m.pick_live(rng, false).unwrap_or([0; 16]);
@@ -833,10 +1373,19 @@ fn run_installation(ctx: &Ctx, idx: usize, rng: &mut Rng) -> Result<(), String> 
                     }
                 }
             }
+        } else if r < 80 {
+            inst_alt_key_reads(&mut h, &rt, &inst, &m, &ckeys, &known9, rng);
+        } else if r < 84 {
+            inst_load_manifests(&mut h, &inst, &m, &ckeys, &mut names, &mut name_seq, rng);
+        } else if r < 89 {
+            inst_name_reads(&mut h, &rt, &inst, &m, &ckeys, &names, rng);
+        } else if r < 92 {
+            inst_location_reads(&mut h, &rt, &inst, &m, rng);
         } else {
             h.log("reopen+initialize".to_string());
             h.stats.add("installation.ops.reopen", 1);
             reopens += 1;
+            names.clear();
             drop(inst);
             let idx_files = count_idx_files(&inst_data_dir(&root));
             h.stats.max("installation.idx_files_on_disk_at_reopen.max", idx_files as u64);
@@ -859,6 +1408,13 @@ fn run_installation(ctx: &Ctx, idx: usize, rng: &mut Rng) -> Result<(), String> 
         }
     }
     inst_verify_all(&mut h, &rt, &inst, &m, None, "final-same-instance");
+    if rng.bool() {
+        // the other entry points once more at the end of the history, with names for what is stored now
+        inst_load_manifests(&mut h, &inst, &m, &ckeys, &mut names, &mut name_seq, rng);
+        inst_name_reads(&mut h, &rt, &inst, &m, &ckeys, &names, rng);
+        inst_alt_key_reads(&mut h, &rt, &inst, &m, &ckeys, &known9, rng);
+        inst_location_reads(&mut h, &rt, &inst, &m, rng);
+    }
     drop(inst);
     let idx_files = count_idx_files(&inst_data_dir(&root));
     h.stats.max("installation.idx_files_on_disk_at_reopen.max", idx_files as u64);
@@ -869,6 +1425,326 @@ fn run_installation(ctx: &Ctx, idx: usize, rng: &mut Rng) -> Result<(), String> 
     inst_verify_all(&mut h, &rt, &inst, &m, Some(idx_files), "final-after-reopen");
     drop(inst);
     finish_history(&mut h, &m, reopens, 0);
+    Ok(())
+}
+
+// ---------------------------------------------------------------------------
+// ArchiveManager + IndexManager driven directly: the write path under every compression setting
+// ---------------------------------------------------------------------------
+
+fn cmode_name(m: CompressionMode) -> &'static str {
+    match m {
+        CompressionMode::None => "none",
+        CompressionMode::ZLib => "zlib",
+        CompressionMode::LZ4 => "lz4",
+        CompressionMode::Encrypted => "encrypted",
+        #[allow(deprecated)]
+        CompressionMode::Frame => "frame",
+    }
+}
+
+const STORAGE_MODES: [CompressionMode; 3] = [CompressionMode::None, CompressionMode::ZLib, CompressionMode::LZ4];
+
+struct ArchState {
+    am: ArchiveManager,
+    im: IndexManager,
+}
+
+fn arch_open(rt: &tokio::runtime::Runtime, dir: &Path, mode: CompressionMode, how: u64) -> Result<ArchState, String> {
+    let mut am = if how % 2 == 0 {
+        ArchiveManager::with_compression(dir, mode)
+    } else {
+        let mut a = ArchiveManager::new(dir);
+        a.set_compression_mode(mode);
+        a
+    };
+    if (how / 2) % 2 == 0 {
+        rt.block_on(am.open_all()).map_err(|e| format!("ArchiveManager::open_all: {e}"))?;
+    } else {
+        // the per-file entry point instead of the directory scan
+        let mut files: Vec<(u16, PathBuf)> = Vec::new();
+        for e in std::fs::read_dir(dir).map_err(|e| format!("read_dir: {e}"))?.flatten() {
+            let name = e.file_name().to_string_lossy().to_string();
+            if let Some(id) = name.strip_prefix("data.").filter(|r| r.len() == 3).and_then(|r| r.parse::<u16>().ok()) {
+                files.push((id, e.path()));
+            }
+        }
+        for (id, path) in files {
+            am.open_archive(id, &path).map_err(|e| format!("ArchiveManager::open_archive: {e}"))?;
+        }
+    }
+    let mut im = IndexManager::new(dir);
+    rt.block_on(im.load_all()).map_err(|e| format!("IndexManager::load_all: {e}"))?;
+    Ok(ArchState { am, im })
+}
+
+fn arch_check_obj(h: &mut Hist<'_>, st: &ArchState, k: &[u8; 16], o: &Obj, modes: &BTreeMap<[u8; 16], &'static str>) {
+    let phase = h.phase(o);
+    let mode = modes.get(k).copied().unwrap_or("none");
+    h.stats.add("archive.ops.read_content", 1);
+    if o.epoch != h.epoch {
+        h.stats.add("archive.reads_after_reopen", 1);
+    }
+    let Some(e) = st.im.lookup(&EncodingKey::from_bytes(*k)) else {
+        h.violation(format!("C04|IndexManager::lookup|none-for-written-object|{phase}"), "the index has no entry for the encoding key returned by a successful write", json!({"ekey": hex::encode(k), "mode": mode}));
+        return;
+    };
+    let res = st.am.read_content(e.archive_id(), e.archive_offset(), e.size);
+    check_read_result(h, &format!("ArchiveManager::read_content|mode={mode}"), k, o, res, 0);
+    h.stats.add(&format!("archive.read_content.mode={mode}"), 1);
+    // verify_content: true for the content hash of the object, false for any other hash
+    let good = md5::compute(&o.payload).0;
+    match st.am.verify_content(e.archive_id(), e.archive_offset(), e.size, &good) {
+        Ok(true) => h.stats.add("archive.verify_content.true_for_object_hash", 1),
+        Ok(false) => h.violation(format!("C04|ArchiveManager::verify_content|false-for-intact-object|mode={mode}|{phase}"), "verify_content() denies the content hash of an intact written object", json!({"ekey": hex::encode(k), "len": o.payload.len()})),
+        Err(er) => {
+            let label = err_label(&er);
+            h.violation(format!("C04|ArchiveManager::verify_content|err={label}|mode={mode}|{phase}"), "verify_content() failed on a written object", json!({"ekey": hex::encode(k), "error": er.to_string()}));
+        }
+    }
+    let mut bad = good;
+    bad[(o.payload.len() + o.write_no) % 16] ^= 0x40;
+    if let Ok(true) = st.am.verify_content(e.archive_id(), e.archive_offset(), e.size, &bad) {
+        h.violation(format!("C04|ArchiveManager::verify_content|true-for-wrong-hash|mode={mode}"), "verify_content() accepts a hash that is not the object's", json!({"ekey": hex::encode(k)}));
+    }
+}
+
+fn arch_verify_all(h: &mut Hist<'_>, st: &ArchState, m: &Model, modes: &BTreeMap<[u8; 16], &'static str>, why: &str) {
+    h.log(format!("verify_all({why})"));
+    for (k, o) in &m.live {
+        arch_check_obj(h, st, k, o, modes);
+    }
+}
+
+fn run_archive(ctx: &Ctx, idx: usize, rng: &mut Rng) -> Result<(), String> {
+    let rt = tokio::runtime::Builder::new_current_thread().enable_all().build().map_err(|e| e.to_string())?;
+    let (td, fs_kind) = mk_tempdir(idx).map_err(|e| format!("tempdir: {e}"))?;
+    let dir = td.path().join("arch");
+    std::fs::create_dir_all(&dir).map_err(|e| format!("mkdir: {e}"))?;
+    let mut h = Hist { ctx, idx, target: "archive", variant: "archive+index", trace: Vec::new(), stats: Stats::default(), hash: 0xa4c04, epoch: 0, reads_of_non_latest: 0, fs_kind };
+    let mut default_mode = *rng.pick(&STORAGE_MODES);
+    let mut st = arch_open(&rt, &dir, default_mode, rng.below(4))?;
+    if st.am.compression_mode() != default_mode {
+        h.stats.add("archive.compression_mode_accessor_disagrees", 1);
+    }
+    let mut m = Model::default();
+    let mut modes: BTreeMap<[u8; 16], &'static str> = BTreeMap::new();
+    let n_ops = rng.urange(5, 50);
+    let order = *rng.pick(SIZE_ORDERS);
+    let max = match rng.below(10) {
+        0 => 300_000,
+        1 | 2 => 65_536,
+        3..=5 => 4096,
+        _ => 1200,
+    };
+    let mut sizes = SizePlan::new(rng, order, max);
+    h.stats.add("histories.archive", 1);
+    h.stats.add(&format!("histories.size_order.{order}"), 1);
+    h.stats.add(&format!("histories.fs.{fs_kind}"), 1);
+    h.log(format!("open archive+index default_mode={} order={order} max={max}", cmode_name(default_mode)));
+    let mut reopens = 0u64;
+    let mut flushes = 0u64;
+    for opi in 0..n_ops {
+        let r = rng.below(100);
+        let r = if opi < 3 && m.writes < 3 { 0 } else { r };
+        if r < 42 {
+            let class: &'static str = if rng.chance(1, 4) { *rng.pick(EXTRA_CLASSES) } else { *rng.pick(genx::PAYLOAD_CLASSES) };
+            let n = sizes.next(rng);
+            let payload = make_payload(rng, class, n);
+            // which write entry point, which effective compression
+            let (how, eff) = match rng.below(20) {
+                0..=7 => ("write_content(compress=true)", default_mode),
+                8..=10 => ("write_content(compress=false)", CompressionMode::None),
+                11..=18 => ("write_content_with_mode", *rng.pick(&STORAGE_MODES)),
+                #[allow(deprecated)]
+                _ => ("write_content_with_mode", if rng.bool() { CompressionMode::Encrypted } else { CompressionMode::Frame }),
+            };
+            let mode = cmode_name(eff);
+            h.log(format!("{how}#{} mode={mode} class={class} len={} md5={}", m.writes, payload.len(), hex::encode(&md5::compute(&payload).0[..4])));
+            h.stats.add("archive.ops.write", 1);
+            h.stats.add(&format!("archive.write.mode={mode}"), 1);
+            h.stats.add(&format!("payload_class.{class}"), 1);
+            h.stats.max("max_payload_len", payload.len() as u64);
+            let res = match how {
+                "write_content(compress=true)" => st.am.write_content(&payload, true),
+                "write_content(compress=false)" => st.am.write_content(&payload, false),
+                _ => st.am.write_content_with_mode(&payload, eff),
+            };
+            match res {
+                Ok((id, off, size, ekey)) => {
+                    h.stats.add(&format!("archive.write.ok.mode={mode}"), 1);
+                    h.stats.add("bytes_written", payload.len() as u64);
+                    if let Err(e) = st.im.add_entry(&EncodingKey::from_bytes(ekey), id, off, size) {
+                        h.stats.add(&format!("archive.add_entry.err.{}", err_label(&e)), 1);
+                        continue;
+                    }
+                    // what is on disk: 30-byte local header, then a BLTE container of the payload whose MD5 is the key
+                    // (recorded, not judged here: the container format is C01's subject)
+                    if let Ok(raw) = st.am.read_raw(id, off, size) {
+                        if raw.len() == size as usize && raw.len() >= 30 {
+                            let blte = &raw[30..];
+                            h.stats.add(if md5::compute(blte).0 == ekey { "archive.ekey_is_md5_of_stored_blte.agrees" } else { "archive.ekey_is_md5_of_stored_blte.differs" }, 1);
+                            let none = |_: u64| None;
+                            match vh::refimpl::blte::decode(blte, &none) {
+                                Ok(d) if d.content() == payload => h.stats.add(&format!("archive.reference_decoder_agrees.mode={mode}"), 1),
+                                _ => h.stats.add(&format!("archive.reference_decoder_differs.mode={mode}"), 1),
+                            }
+                            if payload.len() > 64 && matches!(class, "zeros" | "ones" | "compressible" | "text") && eff != CompressionMode::None && blte.len() < payload.len() {
+                                h.stats.add("archive.stored_smaller_than_payload", 1);
+                            }
+                        } else {
+                            h.stats.add("archive.read_raw_length_differs_from_size", 1);
+                        }
+                    }
+                    if eff == CompressionMode::None {
+                        h.stats.add(if derive_ekey(&payload) == ekey { "key_derivation.agrees" } else { "key_derivation.differs" }, 1);
+                    }
+                    modes.insert(ekey, mode);
+                    m.order.retain(|k| k != &ekey);
+                    m.order.push(ekey);
+                    m.live.insert(ekey, Obj { payload, class, epoch: h.epoch, write_no: m.writes });
+                    m.writes += 1;
+                }
+                Err(e) => h.stats.add(&format!("archive.write.err.{}.mode={mode}", err_label(&e)), 1),
+            }
+        } else if r < 72 {
+            let Some(k) = m.pick_live(rng, true) else { continue };
+            let o = &m.live[&k];
+            let non_latest = m.order.last() != Some(&k);
+            h.log(format!("read_content key={} len={} write_no={} non_latest={non_latest}", hex::encode(&k[..4]), o.payload.len(), o.write_no));
+            if non_latest && m.writes >= 2 {
+                h.reads_of_non_latest += 1;
+                h.stats.add("archive.reads_of_non_latest_key", 1);
+            }
+            arch_check_obj(&mut h, &st, &k, o, &modes);
+        } else if r < 80 {
+            default_mode = *rng.pick(&STORAGE_MODES);
+            h.log(format!("set_compression_mode {}", cmode_name(default_mode)));
+            h.stats.add("archive.ops.set_compression_mode", 1);
+            st.am.set_compression_mode(default_mode);
+        } else if r < 86 {
+            h.log("compact".to_string());
+            h.stats.add("archive.ops.compact", 1);
+            match st.am.compact() {
+                Ok(cs) => {
+                    h.stats.add("archive.compact.ok", 1);
+                    h.stats.add("archive.compact.archives_compacted", cs.archives_compacted as u64);
+                }
+                Err(e) => h.stats.add(&format!("archive.compact.err.{}", err_label(&e)), 1),
+            }
+            arch_verify_all(&mut h, &st, &m, &modes, "after-compact");
+        } else if r < 91 {
+            h.log("flush_all_updates".to_string());
+            flushes += 1;
+            if let Err(e) = st.im.flush_all_updates() {
+                h.stats.add(&format!("archive.flush_all.err.{}", err_label(&e)), 1);
+            }
+        } else {
+            h.log("save_all + reopen".to_string());
+            if let Err(e) = st.im.save_all() {
+                h.stats.add(&format!("archive.save_all.err.{}", err_label(&e)), 1);
+                continue;
+            }
+            h.stats.add("archive.ops.reopen", 1);
+            reopens += 1;
+            drop(st);
+            default_mode = *rng.pick(&STORAGE_MODES);
+            st = arch_open(&rt, &dir, default_mode, rng.below(4))?;
+            h.epoch += 1;
+            arch_verify_all(&mut h, &st, &m, &modes, "after-reopen");
+        }
+    }
+    arch_verify_all(&mut h, &st, &m, &modes, "final-same-instance");
+    st.im.save_all().map_err(|e| format!("final save_all: {e}"))?;
+    drop(st);
+    let st = arch_open(&rt, &dir, default_mode, rng.below(4))?;
+    h.epoch += 1;
+    reopens += 1;
+    h.stats.add("archive.ops.reopen", 1);
+    arch_verify_all(&mut h, &st, &m, &modes, "final-after-reopen");
+    drop(st);
+    finish_history(&mut h, &m, reopens, flushes);
+    Ok(())
+}
+
+/// The data file loses its tail while the store is closed (the situation `handle_truncated_read` exists for). The
+/// object that was cut can no longer be served — but it must not be served wrongly — and every object that lies
+/// wholly inside the remaining file, and everything written afterwards, still reads back byte-for-byte.
+fn truncated_history(ctx: &Ctx, variant: usize) -> Result<(), String> {
+    let rt = tokio::runtime::Builder::new_current_thread().enable_all().build().map_err(|e| e.to_string())?;
+    let (td, fs_kind) = mk_tempdir(0).map_err(|e| e.to_string())?;
+    let root = td.path().to_path_buf();
+    let store = root.join("store");
+    let mut h = Hist { ctx, idx: TRUNC_ID, target: "dynamic", variant: DYN_VARIANTS[variant], trace: Vec::new(), stats: Stats::default(), hash: mix64(0x7c04, variant as u64), epoch: 0, reads_of_non_latest: 0, fs_kind };
+    let mut rng = ctx.rng(7900 + variant as u64);
+    let bundle = open_dynamic(&rt, &root, variant, 1024)?;
+    let mut m = Model::default();
+    // enough objects that every index bucket the cut object could fall into also holds other objects
+    let lens: Vec<usize> = (0..24).map(|i| [300usize, 5000, 40, 2000, 0, 77][i % 6] + i).chain([700]).collect();
+    for n in lens {
+        let payload = rng.bytes(n);
+        h.log(format!("write len={n}"));
+        rt.block_on(bundle.c.write(&[0u8; 16], &payload)).map_err(|e| format!("truncation scenario write: {e}"))?;
+        let ekey = derive_ekey(&payload);
+        m.order.push(ekey);
+        m.live.insert(ekey, Obj { payload, class: "random", epoch: 0, write_no: m.writes });
+        m.writes += 1;
+    }
+    dyn_verify_all(&mut h, &rt, &bundle.c, &m, &mut rng, "before-truncation");
+    drop(bundle);
+    // which object is stored last, and where (from the index files on disk, through a fresh IndexManager)
+    let (cut_key, cut_off, cut_size, archive_id) = {
+        let mut im = IndexManager::new(&store);
+        rt.block_on(im.load_all()).map_err(|e| format!("load_all: {e}"))?;
+        let last = im.iter_entries().map(|(_, e)| e).max_by_key(|e| (e.archive_id(), e.archive_offset())).ok_or("no index entries")?;
+        let k = *m.live.keys().find(|k| k9(k) == last.key).ok_or("last entry is not a model object")?;
+        (k, u64::from(last.archive_offset()), u64::from(last.size), last.archive_id())
+    };
+    let data = store.join(format!("data.{archive_id:03}"));
+    let len = std::fs::metadata(&data).map_err(|e| format!("stat data file: {e}"))?.len();
+    if cut_off + cut_size != len || cut_size < 100 {
+        return Err(format!("unexpected archive layout: last entry {cut_off}+{cut_size}, file {len}"));
+    }
+    let new_len = cut_off + cut_size / 2;
+    std::fs::OpenOptions::new().write(true).open(&data).and_then(|f| f.set_len(new_len)).map_err(|e| format!("truncate: {e}"))?;
+    h.log(format!("data file truncated while closed: {len} -> {new_len} (cuts the last object)"));
+    let cut_obj = m.live.remove(&cut_key).ok_or("model lost the cut object")?;
+    m.order.retain(|k| k != &cut_key);
+    let bundle = open_dynamic(&rt, &root, variant, 1024)?;
+    h.epoch += 1;
+    let probe_cut = |h: &mut Hist<'_>, c: &DynamicContainer, when: &str| match dyn_read(&rt, c, &cut_key, cut_obj.payload.len(), 64) {
+        Ok(got) if got == cut_obj.payload => h.stats.add("truncation.cut_object_still_served_exactly", 1),
+        Ok(got) => h.violation(format!("C04|DynamicContainer::read|ok-with-other-bytes-for-object-cut-by-truncation|{when}"), "a read of an object whose data was cut off returned other bytes instead of failing", json!({"ekey": hex::encode(cut_key), "written_len": cut_obj.payload.len(), "returned_len": got.len()})),
+        Err(e) => h.stats.add(&format!("truncation.read_of_cut_object.err.{}", err_label(&e)), 1),
+    };
+    probe_cut(&mut h, &bundle.c, "first-read");
+    probe_cut(&mut h, &bundle.c, "second-read");
+    dyn_verify_all(&mut h, &rt, &bundle.c, &m, &mut rng, "after-truncated-read");
+    drop(bundle);
+    // the marking done by the truncated read must not damage the others across a reopen either
+    let bundle = open_dynamic(&rt, &root, variant, 1024)?;
+    h.epoch += 1;
+    dyn_verify_all(&mut h, &rt, &bundle.c, &m, &mut rng, "after-truncated-read-and-reopen");
+    probe_cut(&mut h, &bundle.c, "after-reopen");
+    // new writes land behind the cut and are served; the older objects stay
+    for n in [123usize, 4000] {
+        let payload = rng.bytes(n);
+        h.log(format!("write len={n} (after truncation)"));
+        rt.block_on(bundle.c.write(&[0u8; 16], &payload)).map_err(|e| format!("write after truncation: {e}"))?;
+        let ekey = derive_ekey(&payload);
+        m.order.push(ekey);
+        m.live.insert(ekey, Obj { payload, class: "random", epoch: h.epoch, write_no: m.writes });
+        m.writes += 1;
+    }
+    dyn_verify_all(&mut h, &rt, &bundle.c, &m, &mut rng, "after-truncation-and-new-writes");
+    drop(bundle);
+    let bundle = open_dynamic(&rt, &root, variant, 1024)?;
+    h.epoch += 1;
+    dyn_verify_all(&mut h, &rt, &bundle.c, &m, &mut rng, "final-after-reopen");
+    drop(bundle);
+    h.reads_of_non_latest = 4;
+    h.stats.add("truncated_history.runs", 1);
+    finish_history(&mut h, &m, 3, 0);
     Ok(())
 }
 
@@ -1003,14 +1879,22 @@ fn huge_history(ctx: &Ctx) -> Result<(), String> {
 
 fn run_history(ctx: &Ctx, idx: usize, only_target: Option<&str>) {
     let mut rng = ctx.rng(10_000 + idx as u64);
-    let is_inst = idx % 3 == 2;
-    let target = if is_inst { "installation" } else { "dynamic" };
+    // every 8th history drives ArchiveManager + IndexManager directly (all compression settings)
+    let is_arch = idx % 8 == 5;
+    let is_inst = !is_arch && idx % 3 == 2;
+    let target = if is_arch { "archive" } else if is_inst { "installation" } else { "dynamic" };
     if only_target.is_some_and(|t| t != target) {
         return;
     }
     LAST_PANIC.with(|p| *p.borrow_mut() = None);
     let res = std::panic::catch_unwind(std::panic::AssertUnwindSafe(|| {
-        if is_inst { run_installation(ctx, idx, &mut rng) } else { run_dynamic(ctx, idx, (idx / 3) % 4, &mut rng) }
+        if is_arch {
+            run_archive(ctx, idx, &mut rng)
+        } else if is_inst {
+            run_installation(ctx, idx, &mut rng)
+        } else {
+            run_dynamic(ctx, idx, (idx / 3) % 4, &mut rng)
+        }
     }));
     judge_run(ctx, res, idx, target);
 }
@@ -1085,7 +1969,11 @@ fn main() {
     let wall_cap = ctx.pick(75.0, 520.0) * Ctx::wall_scale();
 
     if let Some(s) = replay_special {
-        let r = std::panic::catch_unwind(std::panic::AssertUnwindSafe(|| if s == "probe" { probe_history(&ctx) } else { huge_history(&ctx) }));
+        let r = std::panic::catch_unwind(std::panic::AssertUnwindSafe(|| match s.as_str() {
+            "probe" => probe_history(&ctx),
+            "truncated" => [0usize, 1, 3].iter().try_for_each(|v| truncated_history(&ctx, *v)),
+            _ => huge_history(&ctx),
+        }));
         judge_run(&ctx, r, 0, "dynamic");
         // a replay evaluates one history; make the evidence floor explicit
         ctx.nontrivial(1);
@@ -1108,6 +1996,12 @@ fn main() {
     for (bucket, prefill) in [(3u8, 1259usize), (12, 1260), (7, 1258)] {
         let r = std::panic::catch_unwind(std::panic::AssertUnwindSafe(|| overflow_history(&ctx, bucket, prefill)));
         judge_run(&ctx, r, PROBE_ID, "dynamic");
+    }
+
+    // the data file loses its tail while the store is closed (plain and residency-attached container)
+    for variant in [0usize, 1, 3] {
+        let r = std::panic::catch_unwind(std::panic::AssertUnwindSafe(|| truncated_history(&ctx, variant)));
+        judge_run(&ctx, r, TRUNC_ID, "dynamic");
     }
 
     let next = AtomicUsize::new(0);
@@ -1140,6 +2034,40 @@ fn main() {
     // evidence floors specific to this property
     if only_target.is_none() {
         for k in ["dynamic.ops.write", "dynamic.ops.read", "dynamic.ops.reopen", "dynamic.reads_of_non_latest_key", "dynamic.reads_after_reopen", "installation.ops.write_file", "installation.ops.read_file_by_encoding_key", "installation.ops.reopen", "histories.dynamic.residency", "histories.dynamic.lru"] {
+            if ctx.get_obs(k) == 0 {
+                ctx.inconclusive(&format!("workload never exercised {k}"));
+            }
+        }
+        // the operations added by the coverage-driven extension: each must have been exercised AND judged
+        for k in [
+            "dynamic.short_buffer_read.exact",
+            "dynamic.short_buffer_read.ok_prefix",
+            "dynamic.ops.reopen_access_mode.ReadOnly",
+            "dynamic.ops.reopen_access_mode.None",
+            "dynamic.ops.reopen_access_mode.Exclusive",
+            "dynamic.ops.reserve",
+            "dynamic.ops.remove_span",
+            "histories.dynamic.ctor.new",
+            "histories.dynamic.non_default_configuration",
+            "truncated_history.runs",
+            "installation.ops.alt_key_reads",
+            "installation.ops.read_files_by_content_keys",
+            "installation.load_root_file.ok",
+            "installation.ops.name_reads",
+            "installation.ops.read_files_by_fdids",
+            "installation.ops.read_files_by_paths",
+            "installation.read_from_archive",
+            "installation.alt_read.ok_exact_bytes",
+            "archive.write.ok.mode=none",
+            "archive.write.ok.mode=zlib",
+            "archive.write.ok.mode=lz4",
+            "archive.read_content.mode=zlib",
+            "archive.read_content.mode=lz4",
+            "archive.reads_after_reopen",
+            "archive.verify_content.true_for_object_hash",
+            "archive.ops.compact",
+            "archive.ops.set_compression_mode",
+        ] {
             if ctx.get_obs(k) == 0 {
                 ctx.inconclusive(&format!("workload never exercised {k}"));
             }
